@@ -26,7 +26,10 @@ EXTENDS Integers, Sequences, FiniteSets, TLC
 
 CONSTANTS L,            \* chains have events 0..L
           MaxMut,       \* number of mutations
-          TailAlways, StrictEqual, FirstPhCheck
+          TailAlways, StrictEqual, FirstPhCheck,
+          PositiveCheck,      \* EventList.Verify refuses events whose value is missing, zero or negative (fix c58ff27)
+          MemoByKey,          \* the memo of SignedAccumulator.UnmarshalVerify holds only for the key it was obtained with (fix 96a8e2d)
+          FlattenUnverified   \* FlattenEventLists does not mark its result as verified (fix 287430f)
 
 Chains == {"A", "B"}
 Val(c, i) == IF i = 0 THEN <<"one", 0>> ELSE <<c, i>>
@@ -40,7 +43,9 @@ HashOf(ev) == [alg |-> "sha256", cut |-> "full", of |-> Strip(ev)]
 WireE(ev) == IF ev.sh = 1 THEN <<ev.e[1], ev.e[2] + 100>> ELSE ev.e
 WirePh(ev) == IF ev.sh = 1 THEN [ev.ph EXCEPT !.cut = "rawext"] ELSE ev.ph
 RECURSIVE Ev(_, _)
-Ev(c, i) == [idx |-> i, e |-> Val(c, i), ph |-> IF i = 0 THEN ZeroHash ELSE HashOf(Ev(c, i - 1)), sh |-> 0]
+\* neg = 1: the value has been NEGATED in memory. The hash of an event is taken over the bytes of the value, which do not show
+\* the sign: Strip (what is hashed) has no neg. The value <<"nil", 0>> is a missing value (null in a message).
+Ev(c, i) == [idx |-> i, e |-> Val(c, i), ph |-> IF i = 0 THEN ZeroHash ELSE HashOf(Ev(c, i - 1)), sh |-> 0, neg |-> 0]
 Acc(c, i, t) == [nu |-> <<c, i>>, idx |-> i, time |-> t, eh |-> HashOf(Ev(c, i))]
 Sacc(c, i, t) == [key |-> 0, over |-> Acc(c, i, t), ctr |-> 0, payload |-> Acc(c, i, t)]
 Window(c, f, a) == [k \in 1..(a - f + 1) |-> Ev(c, f + k - 1)]       \* <<>> when f > a
@@ -49,7 +54,8 @@ Cuts == {"full", "rawpre", "lenpre", "rawext", "lenext"}
 EmptyHash == [alg |-> "none", cut |-> "empty", of |-> [zero |-> TRUE]]      \* the zero-length byte string
 GenuineEvents == { Ev(c, i) : c \in Chains, i \in 0..L }
 HashPool == { [alg |-> al, cut |-> cu, of |-> Strip(ev)] : al \in {"sha256", "other"}, cu \in Cuts, ev \in GenuineEvents } \cup {ZeroHash, EmptyHash}
-Vals == { Val(c, i) : c \in Chains, i \in 0..L } \cup {<<"fresh", 0>>}
+Vals == { Val(c, i) : c \in Chains, i \in 0..L } \cup {<<"fresh", 0>>, <<"nil", 0>>}
+ValOK(ev) == ev.neg = 0 /\ ev.e[1] # "nil"
 
 VARIABLES msg,     \* [sacc, events, transported]
           nmut, base
@@ -71,12 +77,13 @@ SetIdx == \E j \in 1..N, i \in 0..(L + 1) : Mut(SetEv(j, [msg.events[j] EXCEPT !
 SetPh == \E j \in 1..N, h \in HashPool : msg.events[j].sh = 0 /\ Mut(SetEv(j, [msg.events[j] EXCEPT !.ph = h]))
 Del == \E j \in 1..N : Mut([msg EXCEPT !.events = RemoveAt(@, j)])
 Ins == \E j \in 1..(N + 1), ev \in GenuineEvents : N <= L + 1 /\ Mut([msg EXCEPT !.events = InsertAt(@, j, ev)])
-ShiftB == \E j \in 1..N : msg.events[j].sh = 0 /\ msg.events[j].ph.cut = "full" /\ msg.events[j].e[2] < 100
+NegE == \E j \in 1..N : msg.events[j].neg = 0 /\ msg.events[j].e[1] # "nil" /\ Mut(SetEv(j, [msg.events[j] EXCEPT !.neg = 1]))
+ShiftB == \E j \in 1..N : msg.events[j].sh = 0 /\ msg.events[j].ph.cut = "full" /\ msg.events[j].e[2] < 100 /\ ValOK(msg.events[j])
                          /\ Mut(SetEv(j, [msg.events[j] EXCEPT !.sh = 1]))
 Swap == \E j \in 1..(N - 1) : Mut([msg EXCEPT !.events = [@ EXCEPT ![j] = msg.events[j + 1], ![j + 1] = msg.events[j]]])
 ReplaceSacc == \E c \in Chains, i \in 0..L, t \in {0, 1} : Mut([msg EXCEPT !.sacc = Sacc(c, i, t)])
 SetCtr == Mut([msg EXCEPT !.sacc.ctr = 1])
-SetKey == \E k \in {1, 2} : Mut([msg EXCEPT !.sacc.key = k])           \* 1: another key; 2: garbage signature bytes
+SetKey == \E k \in {1, 2, 3} : Mut([msg EXCEPT !.sacc.key = k])        \* 1: another key; 2: garbage signature bytes; 3: no accumulator at all (nil)
 SetPayload == \/ \E i \in 0..L : Mut([msg EXCEPT !.sacc.payload.idx = i])
               \/ Mut([msg EXCEPT !.sacc.payload.time = 1 - @])
               \/ \E c \in Chains, i \in 0..L : Mut([msg EXCEPT !.sacc.payload.eh = HashOf(Ev(c, i))])
@@ -85,7 +92,7 @@ SetPayload == \/ \E i \in 0..L : Mut([msg EXCEPT !.sacc.payload.idx = i])
 RECURSIVE Recompute(_, _)
 Recompute(evs, k) == IF k = 1 THEN <<evs[1]>>
                      ELSE LET pre == Recompute(evs, k - 1)
-                          IN Append(pre, [idx |-> evs[1].idx + k - 1, e |-> WireE(evs[k]), ph |-> HashOf(pre[k - 1]), sh |-> 0])
+                          IN Append(pre, [idx |-> evs[1].idx + k - 1, e |-> WireE(evs[k]), ph |-> HashOf(pre[k - 1]), sh |-> 0, neg |-> 0])
 \* JSON decodes a hash with multihash.MHFromBytes: bytes after the declared length are dropped (a raw
 \* extension is normalised away), a hash shorter than its declared length does not decode at all (the
 \* message is refused by the decoder); CBOR carries the bytes as they are
@@ -93,14 +100,16 @@ JsonHash(h) == IF h.cut = "rawext" THEN [h EXCEPT !.cut = "full"] ELSE h
 JsonDecodes(h) == h.cut # "rawpre"       \* (the empty hash decodes since fix 79cf44c)
 Transport(kind) ==
    /\ msg.transported = "no"
+   /\ \A k \in 1..N : ValOK(msg.events[k])            \* neither encoding carries a negative or a missing value
+   /\ msg.sacc.key # 3
    /\ (kind = "json" /\ N > 0) => JsonDecodes(msg.events[1].ph)
    /\ LET f1 == msg.events[1]
-           first == IF kind = "json" THEN [idx |-> f1.idx, e |-> WireE(f1), ph |-> JsonHash(f1.ph), sh |-> 0] ELSE f1
+           first == IF kind = "json" THEN [idx |-> f1.idx, e |-> WireE(f1), ph |-> JsonHash(f1.ph), sh |-> 0, neg |-> 0] ELSE f1
            evs == [msg.events EXCEPT ![1] = first]
       IN msg' = [msg EXCEPT !.transported = kind, !.events = IF N = 0 THEN <<>> ELSE Recompute(evs, N)]
    /\ UNCHANGED <<nmut, base>>
 
-Next == SetE \/ SetIdx \/ SetPh \/ Del \/ Ins \/ Swap \/ ShiftB \/ ReplaceSacc \/ SetCtr \/ SetKey \/ SetPayload \/ Transport("json") \/ Transport("cbor")
+Next == SetE \/ SetIdx \/ SetPh \/ Del \/ Ins \/ Swap \/ ShiftB \/ NegE \/ ReplaceSacc \/ SetCtr \/ SetKey \/ SetPayload \/ Transport("json") \/ Transport("cbor")
 Spec == Init /\ [][Next]_vars
 
 \* ------------------------------------------------------------------ acceptance, transcribed
@@ -118,10 +127,12 @@ ChainOK(evs) == /\ \A k \in 2..Len(evs) : HashEq(evs[k - 1], WirePh(evs[k]))
                 /\ \A k \in 1..Len(evs) : evs[k].idx = evs[1].idx + k - 1
 \* the parent hash of the first event must be a well-formed hash (fix 39af8cd; FirstPhCheck = FALSE is the code before)
 FirstPhOK(evs) == FirstPhCheck => (Decodes(WirePh(evs[1])) /\ evs[1].ph.alg = "sha256")
+ValuesOK(evs) == PositiveCheck => \A k \in 1..Len(evs) : ValOK(evs[k])
 ELVerifyOK(evs, acc, memo) ==
    \/ Len(evs) = 0
-   \/ IF TailAlways THEN HashEq(evs[Len(evs)], acc.eh) /\ FirstPhOK(evs) /\ (memo \/ ChainOK(evs))
-                    ELSE memo \/ (HashEq(evs[Len(evs)], acc.eh) /\ FirstPhOK(evs) /\ ChainOK(evs))
+   \/ /\ ValuesOK(evs)
+      /\ IF TailAlways THEN HashEq(evs[Len(evs)], acc.eh) /\ FirstPhOK(evs) /\ (memo \/ ChainOK(evs))
+                       ELSE memo \/ (HashEq(evs[Len(evs)], acc.eh) /\ FirstPhOK(evs) /\ ChainOK(evs))
 VerifyOK(m) == SigOK(m.sacc) /\ ELVerifyOK(m.events, m.sacc.payload, FALSE)      \* Update.Verify builds a fresh list
 \* Update.Prepend of the message's event list to a genuine target update (events f2..a2 of chain A)
 PrependResult(m, f2, a2) ==
@@ -165,6 +176,14 @@ AuthEventListTwice == SigOK(msg.sacc) /\ ELVerifyTwice(msg.events, msg.sacc.payl
 AuthPrependToMsg == \A c \in Chains, g \in 0..L : \A h \in g..L :
                        LET r == PrependToMsg(msg, c, g, h) IN
                          r.ok => Authentic([msg EXCEPT !.events = r.events])
+\* the receiver verified the message under the issuer's key (memo set) and is then asked to verify the SAME object under an
+\* unrelated key (other ECDSA key, other counter): never acceptable
+OtherKeyOK(m) == ~MemoByKey /\ VerifyOK(m)
+AuthOtherKey == ~OtherKeyOK(msg)
+\* FlattenEventLists of the message's events cut into two lists, then EventList.Verify of the result
+FlattenOK(evs, acc) == IF FlattenUnverified THEN ELVerifyOK(evs, acc, FALSE)
+                       ELSE Len(evs) = 0 \/ (ValuesOK(evs) /\ HashEq(evs[Len(evs)], acc.eh) /\ FirstPhOK(evs))
+AuthFlatten == SigOK(msg.sacc) /\ FlattenOK(msg.events, msg.sacc.payload) => Authentic(msg)
 HashEqIsEquality == \A h1, h2 \in HashPool : Equal(h1, h2) <=> h1 = h2
 \* sanity (must be violated): an accepted mutated message exists, i.e. the invariants are not vacuous
 NoAcceptAfterMutation == ~(nmut > 0 /\ VerifyOK(msg))
